@@ -20,6 +20,7 @@
 #include <ompl/control/PlannerDataStorage.h>
 #include <ompl/control/SpaceInformation.h>
 #include <ompl/control/spaces/RealVectorControlSpace.h>
+#include <ompl/control/spaces/DiscreteControlSpace.h>
 #include <ompl/util/Console.h>
 #include <ompl/util/Exception.h>
 #include <boost/serialization/export.hpp>
@@ -1156,6 +1157,112 @@ int main()
             }
             std::cout << "ok=1 " << full.dump << " marker=" << mk << " sig=" << sg << " # bytes=" << bytes.size() << " trunc=" << tested << "/" << nbad << (nbad ? "/" + first : "")
                       << std::endl;
+        }
+        else if (op == "pdctl" && pds && pds->cdim >= 0 && natAt(1))
+        {
+            // the stored control archive loaded into control::PlannerData objects over (same | other state space) x (listed
+            // control spaces): load must be accepted exactly when the state-space AND the control-space signature match
+            size_t i = 2;
+            auto toks = vp::takeCounted(t, i);
+            auto sp2 = spaces.find(*natAt(1));
+            if (!toks || i != t.size() || sp2 == spaces.end())
+            {
+                bad();
+                continue;
+            }
+            auto makeCs = [](const NodeP &node, const std::string &tok) -> oc::ControlSpacePtr {
+                bool forced = tok.rfind("c:", 0) == 0;
+                std::string body = forced ? tok.substr(2) : tok;
+                std::vector<oc::ControlSpacePtr> comps;
+                size_t pos = 0;
+                while (pos <= body.size())
+                {
+                    size_t e = body.find('+', pos);
+                    std::string c = body.substr(pos, e == std::string::npos ? std::string::npos : e - pos);
+                    if (c == "d")
+                        comps.push_back(std::make_shared<oc::DiscreteControlSpace>(node->space, 0, 3));
+                    else if (c.size() > 1 && c[0] == 'r' && vp::parseNat(c.substr(1)) && *vp::parseNat(c.substr(1)) <= 16)
+                    {
+                        unsigned d = *vp::parseNat(c.substr(1));
+                        auto rv = std::make_shared<oc::RealVectorControlSpace>(node->space, d);
+                        ob::RealVectorBounds b(d);
+                        b.setLow(-1);
+                        b.setHigh(1);
+                        rv->setBounds(b);
+                        comps.push_back(rv);
+                    }
+                    else
+                        return nullptr;
+                    if (e == std::string::npos)
+                        break;
+                    pos = e + 1;
+                }
+                if (comps.empty())
+                    return nullptr;
+                if (comps.size() == 1 && !forced)
+                    return comps[0];
+                auto cc = std::make_shared<oc::CompoundControlSpace>(node->space);
+                for (auto &c : comps)
+                    cc->addSubspace(c);
+                return cc;
+            };
+            bool ok = true;
+            for (auto &tk : *toks)
+                if (!makeCs(pds->node, tk))
+                    ok = false;
+            if (!ok)
+            {
+                bad();
+                continue;
+            }
+            std::string bytes;
+            {
+                std::ostringstream out;
+                oc::PlannerDataStorage().store(*pds->pd, out);
+                bytes = out.str();
+            }
+            std::string orig = dumpPD(pds->node, pds->cdim, *pds->pd);
+            std::string res;
+            for (auto &tk : *toks)
+                for (int other = 0; other < 2; ++other)
+                {
+                    NodeP node = other ? sp2->second : pds->node;
+                    oc::ControlSpacePtr cs = makeCs(node, tk);
+                    auto siC = std::make_shared<oc::SpaceInformation>(node->space, cs);
+                    std::string v;
+                    {
+                        oc::PlannerData pd(siC);
+                        std::istringstream in(bytes);
+                        unsigned e0 = recorder.errors;
+                        bool lok = false, threw = false;
+                        try
+                        {
+                            lok = oc::PlannerDataStorage().load(in, pd);
+                        }
+                        catch (std::exception &)
+                        {
+                            threw = true;
+                        }
+                        if (threw)
+                            v = "threw";
+                        else if (!lok)
+                            v = recorder.errors > e0 ? "rej" : "rej-silent";
+                        else if (!other && tk == "r" + std::to_string(pds->cdim))
+                        {
+                            // edges (endpoints, weight, duration, control image) must come back bit-exactly; the start/goal
+                            // marks are judged by pdstore (F31)
+                            auto edgesOf = [](const std::string &d) {
+                                size_t a = d.find(" E="), b = d.find(" starts=");
+                                return a == std::string::npos || b == std::string::npos ? d : d.substr(a, b - a);
+                            };
+                            v = edgesOf(dumpPD(node, pds->cdim, pd)) == edgesOf(orig) ? "acc" : "acc-differs";
+                        }
+                        else
+                            v = "acc";
+                    }
+                    res += (res.empty() ? "" : ",") + std::string(other ? "o" : "s") + tk + ":" + v;
+                }
+            std::cout << "t=" << (res.empty() ? "-" : res) << std::endl;
         }
         else if (op == "pdreload" && t.size() == 1 && pds)
         {
